@@ -262,6 +262,9 @@ func (vc *VC) resolveType(env *SpecEnv, name string) types.Type {
 	case "ref":
 		return types.NewPointer(types.NewStruct(nil, nil))
 	}
+	if obj, ok := types.Universe.Lookup(name).(*types.TypeName); ok { // int8, uint16, float64, uintptr, ...
+		return obj.Type()
+	}
 	if strings.HasPrefix(name, "*") {
 		if t := vc.resolveType(env, name[1:]); t != nil {
 			return types.NewPointer(t)
